@@ -1,3 +1,5 @@
+import ParryModel.C13.Theorems4
+import ParryModel.C13.Model5
 import ParryModel.C13.Theorems3
 import ParryModel.C13.Theorems2
 import ParryModel.C13.Lemmas
@@ -1354,5 +1356,686 @@ theorem sub3_add_cancel (hs : LawfulSqrt sq) (eig : M3 K → V3 K × M3 K) (a b 
   simp only [madd, M3.mk.injEq, V3.mk.injEq] at e
   obtain ⟨⟨h00, h01, h02⟩, ⟨h10, h11, h12⟩, ⟨h20, h21, h22⟩⟩ := e
   congr 1 <;> congr 1 <;> linarith
+
+/-! ### 3-D `transform_by` commutes with `+` (rotation AND translation part) -/
+
+/-- matrix × vector (spec side) -/
+def mulVec3 (M : M3 K) (v : V3 K) : V3 K :=
+  ⟨M.r0.x * v.x + M.r0.y * v.y + M.r0.z * v.z, M.r1.x * v.x + M.r1.y * v.y + M.r1.z * v.z, M.r2.x * v.x + M.r2.y * v.y + M.r2.z * v.z⟩
+
+/-- second-moment tensor about the ORIGIN of a body with mass `μ`, first moment `F = μ·com` and origin tensor `O`, after the
+rigid motion `x ↦ M x + t`: `M O Mᵀ + (2 (MF·t)·1 − MF tᵀ − t (MF)ᵀ) + μ(|t|²·1 − t tᵀ)` — LINEAR in `(μ, F, O)` -/
+def movedTensor (M : M3 K) (t : V3 K) (μ : K) (F : V3 K) (O : M3 K) : M3 K :=
+  let u := mulVec3 M F
+  let d := u.x * t.x + u.y * t.y + u.z * t.z
+  madd (madd (@M3.mul K (fieldNum K sq) (@M3.mul K (fieldNum K sq) M O) (mtr M))
+    ⟨⟨2 * d - 2 * u.x * t.x, -(u.x * t.y + t.x * u.y), -(u.x * t.z + t.x * u.z)⟩,
+     ⟨-(u.y * t.x + t.y * u.x), 2 * d - 2 * u.y * t.y, -(u.y * t.z + t.y * u.z)⟩,
+     ⟨-(u.z * t.x + t.z * u.x), -(u.z * t.y + t.z * u.y), 2 * d - 2 * u.z * t.z⟩⟩) (steiner3 μ t)
+
+/-- for a unit quaternion the sandwich product nalgebra evaluates is the rotation matrix times the vector -/
+theorem rot_eq_mulVec (m : Iso3 K) (hq : UnitQ (⟨m.qi, m.qj, m.qk, m.qw⟩ : Quat K)) (v : V3 K) :
+    @Iso3.rot K (fieldNum K sq) m v = mulVec3 (@Quat.toMat K (fieldNum K sq) ⟨m.qi, m.qj, m.qk, m.qw⟩) v := by
+  simp only [Iso3.rot, Iso3.rotQ, Iso3.qv, V3.cross, V3.smul, V3.add, Quat.toMat, mulVec3, fieldNum_two, UnitQ] at hq ⊢
+  congr 1
+  · linear_combination (-v.x) * hq
+  · linear_combination (-v.y) * hq
+  · linear_combination (-v.z) * hq
+
+/-- the origin tensor of a transformed body -/
+theorem originTensor_transformBy (p : MP3 K) (m : Iso3 K) (hq : UnitQ (⟨m.qi, m.qj, m.qk, m.qw⟩ : Quat K)) :
+    originTensor sq (@MP3.transformBy K (fieldNum K sq) p m)
+      = movedTensor sq (@Quat.toMat K (fieldNum K sq) ⟨m.qi, m.qj, m.qk, m.qw⟩) m.t (massOf3 p)
+          ⟨p.com.x * massOf3 p, p.com.y * massOf3 p, p.com.z * massOf3 p⟩ (originTensor sq p) := by
+  obtain ⟨h1, -, h3, h4⟩ := transformBy3_covariant sq p m
+  unfold originTensor
+  rw [h4, h1, h3]
+  simp only [Iso3.act, rot_eq_mulVec sq m hq]
+  generalize massOf3 p = μ
+  generalize @MP3.reconstruct K (fieldNum K sq) p = I
+  rcases I with ⟨⟨a00, a01, a02⟩, ⟨a10, a11, a12⟩, ⟨a20, a21, a22⟩⟩
+  rcases m with ⟨i, j, k, w, ⟨tx, ty, tz⟩⟩
+  generalize p.com = c
+  rcases c with ⟨cx, cy, cz⟩
+  simp only [movedTensor, madd, steiner3, M3.mul, mtr, mulVec3, V3.add, Quat.toMat, fieldNum_two]
+  congr 1 <;> congr 1 <;> ring
+
+theorem movedTensor_add (M : M3 K) (t : V3 K) (μ1 μ2 : K) (F1 F2 : V3 K) (O1 O2 : M3 K) :
+    movedTensor sq M t (μ1 + μ2) ⟨F1.x + F2.x, F1.y + F2.y, F1.z + F2.z⟩ (madd O1 O2)
+      = madd (movedTensor sq M t μ1 F1 O1) (movedTensor sq M t μ2 F2 O2) := by
+  rcases M with ⟨⟨m00, m01, m02⟩, ⟨m10, m11, m12⟩, ⟨m20, m21, m22⟩⟩
+  rcases O1 with ⟨⟨a00, a01, a02⟩, ⟨a10, a11, a12⟩, ⟨a20, a21, a22⟩⟩
+  rcases O2 with ⟨⟨b00, b01, b02⟩, ⟨b10, b11, b12⟩, ⟨b20, b21, b22⟩⟩
+  simp only [movedTensor, madd, steiner3, M3.mul, mtr, mulVec3]
+  congr 1 <;> congr 1 <;> ring
+
+/-- **`transform_by` commutes with `+` in 3-D** (rotation and translation; through all three eigen-decompositions): for a
+unit rotation quaternion, `(a + b).transform_by(m)` and `a.transform_by(m) + b.transform_by(m)` have the same mass, the
+same first moment and the same second-moment tensor about the origin (after `reconstruct_inertia_matrix` + Steiner term),
+whenever the solver returns orthonormal eigen-decompositions with non-negative eigenvalues of the two matrices handed over. -/
+theorem transformBy3_add (hs : LawfulSqrt sq) (eig : M3 K → V3 K × M3 K) (a b : MP3 K) (ha : 0 ≤ a.invMass) (hb : 0 ≤ b.invMass)
+    (m : Iso3 K) (hq : UnitQ (⟨m.qi, m.qj, m.qk, m.qw⟩ : Quat K))
+    (hE : ∀ (μ : K) (c : V3 K) (I : M3 K), @MP3.addRaw K (fieldNum K sq) a b = some (μ, c, I) →
+      EigenDecomp sq I (eig I).1 (eig I).2 ∧ 0 ≤ (eig I).1.x ∧ 0 ≤ (eig I).1.y ∧ 0 ≤ (eig I).1.z)
+    (hE' : ∀ (μ : K) (c : V3 K) (I : M3 K),
+      @MP3.addRaw K (fieldNum K sq) (@MP3.transformBy K (fieldNum K sq) a m) (@MP3.transformBy K (fieldNum K sq) b m) = some (μ, c, I) →
+      EigenDecomp sq I (eig I).1 (eig I).2 ∧ 0 ≤ (eig I).1.x ∧ 0 ≤ (eig I).1.y ∧ 0 ≤ (eig I).1.z) :
+    letI := fieldNum K sq
+    let l := (MP3.add eig a b).transformBy m
+    let r := MP3.add eig (a.transformBy m) (b.transformBy m)
+    massOf3 l = massOf3 r ∧
+    l.com.x * massOf3 l = r.com.x * massOf3 r ∧ l.com.y * massOf3 l = r.com.y * massOf3 r ∧
+    l.com.z * massOf3 l = r.com.z * massOf3 r ∧ originTensor sq l = originTensor sq r := by
+  intro l r
+  obtain ⟨s1, s2, s3, s4, s5⟩ := add3_full_moments sq hs eig a b ha hb hE
+  obtain ⟨g1, g2, g3, g4, g5⟩ := add3_full_moments sq hs eig (@MP3.transformBy K (fieldNum K sq) a m)
+    (@MP3.transformBy K (fieldNum K sq) b m) ha hb hE'
+  have hl := originTensor_transformBy sq (@MP3.add K (fieldNum K sq) eig a b) m hq
+  have hat := originTensor_transformBy sq a m hq
+  have hbt := originTensor_transformBy sq b m hq
+  have ml : massOf3 l = massOf3 (@MP3.add K (fieldNum K sq) eig a b) := rfl
+  have ma : massOf3 (@MP3.transformBy K (fieldNum K sq) a m) = massOf3 a := rfl
+  have mb : massOf3 (@MP3.transformBy K (fieldNum K sq) b m) = massOf3 b := rfl
+  have cl : l.com = @Iso3.act K (fieldNum K sq) m (@MP3.add K (fieldNum K sq) eig a b).com := rfl
+  have ca : (@MP3.transformBy K (fieldNum K sq) a m).com = @Iso3.act K (fieldNum K sq) m a.com := rfl
+  have cb : (@MP3.transformBy K (fieldNum K sq) b m).com = @Iso3.act K (fieldNum K sq) m b.com := rfl
+  refine ⟨by rw [ml, s1, g1, ma, mb], ?_, ?_, ?_, ?_⟩
+  · rw [g2, ml, cl, ca, cb, ma, mb]
+    simp only [Iso3.act, rot_eq_mulVec sq m hq, mulVec3, V3.add]
+    linear_combination (@Quat.toMat K (fieldNum K sq) ⟨m.qi, m.qj, m.qk, m.qw⟩).r0.x * s2
+      + (@Quat.toMat K (fieldNum K sq) ⟨m.qi, m.qj, m.qk, m.qw⟩).r0.y * s3
+      + (@Quat.toMat K (fieldNum K sq) ⟨m.qi, m.qj, m.qk, m.qw⟩).r0.z * s4 + m.t.x * s1
+  · rw [g3, ml, cl, ca, cb, ma, mb]
+    simp only [Iso3.act, rot_eq_mulVec sq m hq, mulVec3, V3.add]
+    linear_combination (@Quat.toMat K (fieldNum K sq) ⟨m.qi, m.qj, m.qk, m.qw⟩).r1.x * s2
+      + (@Quat.toMat K (fieldNum K sq) ⟨m.qi, m.qj, m.qk, m.qw⟩).r1.y * s3
+      + (@Quat.toMat K (fieldNum K sq) ⟨m.qi, m.qj, m.qk, m.qw⟩).r1.z * s4 + m.t.y * s1
+  · rw [g4, ml, cl, ca, cb, ma, mb]
+    simp only [Iso3.act, rot_eq_mulVec sq m hq, mulVec3, V3.add]
+    linear_combination (@Quat.toMat K (fieldNum K sq) ⟨m.qi, m.qj, m.qk, m.qw⟩).r2.x * s2
+      + (@Quat.toMat K (fieldNum K sq) ⟨m.qi, m.qj, m.qk, m.qw⟩).r2.y * s3
+      + (@Quat.toMat K (fieldNum K sq) ⟨m.qi, m.qj, m.qk, m.qw⟩).r2.z * s4 + m.t.z * s1
+  · have e : originTensor sq r = madd (originTensor sq (@MP3.transformBy K (fieldNum K sq) a m))
+        (originTensor sq (@MP3.transformBy K (fieldNum K sq) b m)) := g5
+    have e0 : originTensor sq (@MP3.add K (fieldNum K sq) eig a b) = madd (originTensor sq a) (originTensor sq b) := s5
+    rw [e, hl, hat, hbt, e0, s2, s3, s4, s1, ← movedTensor_add]
+
+/-- a non-identity unit rotation (120° about the diagonal would be `(1/2,1/2,1/2,1/2)`; here an oblique half-turn) for
+`transformBy3_add` / `rot_eq_mulVec` -/
+example : UnitQ (⟨2 / 3, 1 / 3, 2 / 3, 0⟩ : Quat ℚ) ∧ UnitQ (⟨1 / 2, 1 / 2, 1 / 2, 1 / 2⟩ : Quat ℚ) := by
+  constructor <;> norm_num [UnitQ]
+
+/-! ### 2-D `from_trimesh` and refinement of the triangulation -/
+
+/-- midpoint subdivision of a 2-D triangle (1 → 4) -/
+def midpoint4₂ (t : Triangle2 K) : List (Triangle2 K) :=
+  let ab : V2 K := ⟨(t.a.x + t.b.x) / 2, (t.a.y + t.b.y) / 2⟩
+  let bc : V2 K := ⟨(t.b.x + t.c.x) / 2, (t.b.y + t.c.y) / 2⟩
+  let ca : V2 K := ⟨(t.c.x + t.a.x) / 2, (t.c.y + t.a.y) / 2⟩
+  [⟨t.a, ab, ca⟩, ⟨ab, t.b, bc⟩, ⟨ca, bc, t.c⟩, ⟨ab, bc, ca⟩]
+
+/-- insertion of the point `α a + β b + (1−α−β) c` (1 → 3) -/
+def insertPoint₂ (α β : K) (t : Triangle2 K) : List (Triangle2 K) :=
+  let p : V2 K := ⟨α * t.a.x + β * t.b.x + (1 - α - β) * t.c.x, α * t.a.y + β * t.b.y + (1 - α - β) * t.c.y⟩
+  [⟨t.a, t.b, p⟩, ⟨t.b, t.c, p⟩, ⟨t.c, t.a, p⟩]
+
+/-- a local refinement rule keeps mass, first moment and polar moment (about every point) of every triangle part -/
+def PartEq (ρ : K) (f : Triangle2 K → List (Triangle2 K)) : Prop :=
+  ∀ t : Triangle2 K,
+    totMass ((f t).map (@fromTriangle K (fieldNum K sq) ρ)) = totMass [@fromTriangle K (fieldNum K sq) ρ t] ∧
+    totFx ((f t).map (@fromTriangle K (fieldNum K sq) ρ)) = totFx [@fromTriangle K (fieldNum K sq) ρ t] ∧
+    totFy ((f t).map (@fromTriangle K (fieldNum K sq) ρ)) = totFy [@fromTriangle K (fieldNum K sq) ρ t] ∧
+    ∀ p : V2 K, totMoment ((f t).map (@fromTriangle K (fieldNum K sq) ρ)) p = totMoment [@fromTriangle K (fieldNum K sq) ρ t] p
+
+private theorem triArea_cross (hs : LawfulSqrt sq) (t : Triangle2 K) : @triArea K (fieldNum K sq) t = |cross t| / 2 := by
+  have harea := triangle_area_eq sq hs t
+  have hcr : @V2.perp K (fieldNum K sq) (@V2.sub K (fieldNum K sq) t.b t.a) (@V2.sub K (fieldNum K sq) t.c t.a) = cross t := by
+    simp only [V2.perp, V2.sub, cross]
+  rw [hcr] at harea
+  exact harea
+
+/-- the four part-moments of one `from_triangle`, in closed form: `A = |cross|/2`, centroid `g`, `A·(Σ|side|²/36 + |p−g|²)` -/
+private theorem part_closed (hs : LawfulSqrt sq) (ρ : K) (hρ : 0 ≤ ρ) (t : Triangle2 K) (p : V2 K) :
+    massOf (@fromTriangle K (fieldNum K sq) ρ t) = |cross t| / 2 * ρ ∧
+    (@fromTriangle K (fieldNum K sq) ρ t).com.x = (t.a.x + t.b.x + t.c.x) / 3 ∧
+    (@fromTriangle K (fieldNum K sq) ρ t).com.y = (t.a.y + t.b.y + t.c.y) / 3 ∧
+    momentAbout (@fromTriangle K (fieldNum K sq) ρ t) p = |cross t| / 2 * ρ *
+      (sumSqSides t / 36 + ((p.x - (t.a.x + t.b.x + t.c.x) / 3) ^ 2 + (p.y - (t.a.y + t.b.y + t.c.y) / 3) ^ 2)) := by
+  obtain ⟨o1, o2, o3⟩ := from_triangle_obs sq hs ρ hρ t
+  have hc := triangle_center_eq sq t
+  rw [triArea_cross sq hs] at o1 o3
+  have cx : (@fromTriangle K (fieldNum K sq) ρ t).com.x = (t.a.x + t.b.x + t.c.x) / 3 := by rw [o2, hc]
+  have cy : (@fromTriangle K (fieldNum K sq) ρ t).com.y = (t.a.y + t.b.y + t.c.y) / 3 := by rw [o2, hc]
+  refine ⟨o1, cx, cy, ?_⟩
+  simp only [momentAbout, o1, o3, cx, cy]
+  ring
+
+/-- **midpoint subdivision keeps the part moments** (each of the four sub-triangles has a quarter of the signed area) -/
+theorem midpoint4₂_partEq (hs : LawfulSqrt sq) (ρ : K) (hρ : 0 ≤ ρ) : PartEq sq ρ (midpoint4₂ (K := K)) := by
+  intro t
+  rcases t with ⟨⟨ax, ay⟩, ⟨bx, by'⟩, ⟨cx, cy⟩⟩
+  have h4 : (0:K) < 4 := by norm_num
+  have c1 : ∀ s ∈ midpoint4₂ (⟨⟨ax, ay⟩, ⟨bx, by'⟩, ⟨cx, cy⟩⟩ : Triangle2 K),
+      |cross s| = |cross (⟨⟨ax, ay⟩, ⟨bx, by'⟩, ⟨cx, cy⟩⟩ : Triangle2 K)| / 4 := by
+    intro s hs'
+    simp only [midpoint4₂, List.mem_cons, List.not_mem_nil, or_false] at hs'
+    rw [← abs_of_pos h4, ← abs_div]
+    rcases hs' with rfl | rfl | rfl | rfl <;> (congr 1; simp only [cross]; ring)
+  simp only [midpoint4₂, List.mem_cons, List.not_mem_nil, or_false, forall_eq_or_imp, forall_eq] at c1
+  obtain ⟨e1, e2, e3, e4⟩ := c1
+  refine ⟨?_, ?_, ?_, ?_⟩
+  · simp only [totMass, midpoint4₂, List.map_cons, List.map_nil, List.sum_cons, List.sum_nil,
+      (part_closed sq hs ρ hρ _ ⟨0, 0⟩).1, e1, e2, e3, e4]
+    ring
+  · simp only [totFx, midpoint4₂, List.map_cons, List.map_nil, List.sum_cons, List.sum_nil,
+      (part_closed sq hs ρ hρ _ ⟨0, 0⟩).1, (part_closed sq hs ρ hρ _ ⟨0, 0⟩).2.1, e1, e2, e3, e4]
+    ring
+  · simp only [totFy, midpoint4₂, List.map_cons, List.map_nil, List.sum_cons, List.sum_nil,
+      (part_closed sq hs ρ hρ _ ⟨0, 0⟩).1, (part_closed sq hs ρ hρ _ ⟨0, 0⟩).2.2.1, e1, e2, e3, e4]
+    ring
+  · intro p
+    simp only [totMoment, midpoint4₂, List.map_cons, List.map_nil, List.sum_cons, List.sum_nil,
+      (part_closed sq hs ρ hρ _ p).2.2.2, e1, e2, e3, e4, sumSqSides]
+    ring
+
+/-- **inserting a point of the triangle keeps the part moments**: for barycentric weights `α, β, 1−α−β ≥ 0` the three
+sub-triangles have the signed areas `(1−α−β)·A`, `α·A`, `β·A` of the same sign -/
+theorem insertPoint₂_partEq (hs : LawfulSqrt sq) (ρ : K) (hρ : 0 ≤ ρ) (α β : K) (hα : 0 ≤ α) (hβ : 0 ≤ β) (hγ : α + β ≤ 1) :
+    PartEq sq ρ (insertPoint₂ α β) := by
+  intro t
+  rcases t with ⟨⟨ax, ay⟩, ⟨bx, by'⟩, ⟨cx, cy⟩⟩
+  have hγ' : 0 ≤ 1 - α - β := by linarith
+  have m1 := abs_mul (1 - α - β) (cross (⟨⟨ax, ay⟩, ⟨bx, by'⟩, ⟨cx, cy⟩⟩ : Triangle2 K))
+  have m2 := abs_mul α (cross (⟨⟨ax, ay⟩, ⟨bx, by'⟩, ⟨cx, cy⟩⟩ : Triangle2 K))
+  have m3 := abs_mul β (cross (⟨⟨ax, ay⟩, ⟨bx, by'⟩, ⟨cx, cy⟩⟩ : Triangle2 K))
+  rw [abs_of_nonneg hγ'] at m1
+  rw [abs_of_nonneg hα] at m2
+  rw [abs_of_nonneg hβ] at m3
+  have e1 : |cross (⟨⟨ax, ay⟩, ⟨bx, by'⟩, ⟨α * ax + β * bx + (1 - α - β) * cx, α * ay + β * by' + (1 - α - β) * cy⟩⟩ : Triangle2 K)|
+      = (1 - α - β) * |cross (⟨⟨ax, ay⟩, ⟨bx, by'⟩, ⟨cx, cy⟩⟩ : Triangle2 K)| := by
+    rw [← m1]; congr 1; simp only [cross]; ring
+  have e2 : |cross (⟨⟨bx, by'⟩, ⟨cx, cy⟩, ⟨α * ax + β * bx + (1 - α - β) * cx, α * ay + β * by' + (1 - α - β) * cy⟩⟩ : Triangle2 K)|
+      = α * |cross (⟨⟨ax, ay⟩, ⟨bx, by'⟩, ⟨cx, cy⟩⟩ : Triangle2 K)| := by
+    rw [← m2]; congr 1; simp only [cross]; ring
+  have e3 : |cross (⟨⟨cx, cy⟩, ⟨ax, ay⟩, ⟨α * ax + β * bx + (1 - α - β) * cx, α * ay + β * by' + (1 - α - β) * cy⟩⟩ : Triangle2 K)|
+      = β * |cross (⟨⟨ax, ay⟩, ⟨bx, by'⟩, ⟨cx, cy⟩⟩ : Triangle2 K)| := by
+    rw [← m3]; congr 1; simp only [cross]; ring
+  refine ⟨?_, ?_, ?_, ?_⟩
+  · simp only [totMass, insertPoint₂, List.map_cons, List.map_nil, List.sum_cons, List.sum_nil,
+      (part_closed sq hs ρ hρ _ ⟨0, 0⟩).1, e1, e2, e3]
+    ring
+  · simp only [totFx, insertPoint₂, List.map_cons, List.map_nil, List.sum_cons, List.sum_nil,
+      (part_closed sq hs ρ hρ _ ⟨0, 0⟩).1, (part_closed sq hs ρ hρ _ ⟨0, 0⟩).2.1, e1, e2, e3]
+    ring
+  · simp only [totFy, insertPoint₂, List.map_cons, List.map_nil, List.sum_cons, List.sum_nil,
+      (part_closed sq hs ρ hρ _ ⟨0, 0⟩).1, (part_closed sq hs ρ hρ _ ⟨0, 0⟩).2.2.1, e1, e2, e3]
+    ring
+  · intro p
+    simp only [totMoment, insertPoint₂, List.map_cons, List.map_nil, List.sum_cons, List.sum_nil,
+      (part_closed sq hs ρ hρ _ p).2.2.2, e1, e2, e3, sumSqSides]
+    ring
+
+/-- **2-D `from_trimesh` does not change under refinement of the triangulation**: replacing every triangle by the pieces
+a moment-preserving rule gives (midpoint subdivision, insertion of any point of the triangle — or any composition) leaves
+mass, first moment and the polar moment about every point unchanged. -/
+theorem from_trimesh2_refine (hs : LawfulSqrt sq) (ρ : K) (hρ : 0 ≤ ρ) (f : Triangle2 K → List (Triangle2 K))
+    (hf : PartEq sq ρ f) (ts : List (Triangle2 K)) :
+    letI := fieldNum K sq
+    SameMoments (fromTrimeshTris ρ (ts.flatMap f)) (fromTrimeshTris ρ ts) := by
+  have key : totMass ((ts.flatMap f).map (@fromTriangle K (fieldNum K sq) ρ)) = totMass (ts.map (@fromTriangle K (fieldNum K sq) ρ)) ∧
+      totFx ((ts.flatMap f).map (@fromTriangle K (fieldNum K sq) ρ)) = totFx (ts.map (@fromTriangle K (fieldNum K sq) ρ)) ∧
+      totFy ((ts.flatMap f).map (@fromTriangle K (fieldNum K sq) ρ)) = totFy (ts.map (@fromTriangle K (fieldNum K sq) ρ)) ∧
+      ∀ p : V2 K, totMoment ((ts.flatMap f).map (@fromTriangle K (fieldNum K sq) ρ)) p
+        = totMoment (ts.map (@fromTriangle K (fieldNum K sq) ρ)) p := by
+    induction ts with
+    | nil => exact ⟨rfl, rfl, rfl, fun _ => rfl⟩
+    | cons t l ih =>
+      obtain ⟨i1, i2, i3, i4⟩ := ih
+      obtain ⟨f1, f2, f3, f4⟩ := hf t
+      simp only [totMass, totFx, totFy, totMoment, List.flatMap_cons, List.map_append, List.sum_append, List.map_cons,
+        List.sum_cons, List.map_nil, List.sum_nil, add_zero] at i1 i2 i3 i4 f1 f2 f3 f4 ⊢
+      exact ⟨by rw [i1, f1], by rw [i2, f2], by rw [i3, f3], fun p => by rw [i4 p, f4 p]⟩
+  obtain ⟨k1, k2, k3, k4⟩ := key
+  obtain ⟨a1, a2, a3, a4⟩ := trimesh_moments sq hs ρ hρ (ts.flatMap f)
+  obtain ⟨b1, b2, b3, b4⟩ := trimesh_moments sq hs ρ hρ ts
+  exact ⟨by rw [a1, b1, k1], by rw [a2, b2, k2], by rw [a3, b3, k3], fun p => by rw [a4 p, b4 p, k4 p]⟩
+
+/-- non-vacuity of `insertPoint₂_partEq`: the centroid weights, and a point on an edge (`β = 0`, `α = 1/2`: the degenerate
+third triangle has area 0 and is harmless) -/
+example : (0:ℚ) ≤ 1 / 3 ∧ (1 / 3 + 1 / 3 : ℚ) ≤ 1 ∧ (0:ℚ) ≤ 1 / 2 ∧ (0:ℚ) ≤ 0 ∧ (1 / 2 + 0 : ℚ) ≤ 1 := by norm_num
+
+/-- the unit right triangle split at its centroid: three pieces of signed area `1/6` each -/
+example : (insertPoint₂ (1 / 3 : ℚ) (1 / 3) ⟨⟨0, 0⟩, ⟨1, 0⟩, ⟨0, 1⟩⟩).map cross = [1 / 3, 1 / 3, 1 / 3] := by
+  norm_num [insertPoint₂, cross]
+
+/-! ### 3-D `transform_by` commutes with `Sum` / moving a Compound rigidly -/
+
+theorem movedTensor_zero (M : M3 K) (t : V3 K) : movedTensor sq M t 0 ⟨0, 0, 0⟩ mzero = mzero := by
+  rcases M with ⟨⟨m00, m01, m02⟩, ⟨m10, m11, m12⟩, ⟨m20, m21, m22⟩⟩
+  simp only [movedTensor, madd, steiner3, M3.mul, mtr, mulVec3, mzero]
+  congr 1 <;> congr 1 <;> ring
+
+/-- the totals of a family whose members are all moved by the same unit isometry -/
+theorem tot_transformBy (ps : List (MP3 K)) (m : Iso3 K) (hq : UnitQ (⟨m.qi, m.qj, m.qk, m.qw⟩ : Quat K)) :
+    let M := @Quat.toMat K (fieldNum K sq) ⟨m.qi, m.qj, m.qk, m.qw⟩
+    let ps' := ps.map fun p => @MP3.transformBy K (fieldNum K sq) p m
+    totMass3 ps' = totMass3 ps ∧
+    totF3 ps' = ⟨(mulVec3 M (totF3 ps)).x + totMass3 ps * m.t.x, (mulVec3 M (totF3 ps)).y + totMass3 ps * m.t.y,
+      (mulVec3 M (totF3 ps)).z + totMass3 ps * m.t.z⟩ ∧
+    totTensor3 sq ps' = movedTensor sq M m.t (totMass3 ps) (totF3 ps) (totTensor3 sq ps) := by
+  intro M ps'
+  induction ps with
+  | nil =>
+    refine ⟨rfl, ?_, ?_⟩
+    · simp [ps', totF3, totMass3, mulVec3]
+    · simp only [ps', totTensor3, totMass3, totF3, List.map_nil, List.sum_nil, msum, List.foldr_nil]
+      exact (movedTensor_zero sq M m.t).symm
+  | cons a l ih =>
+    obtain ⟨i1, i2, i3⟩ := ih
+    have ha := originTensor_transformBy sq a m hq
+    have ma : massOf3 (@MP3.transformBy K (fieldNum K sq) a m) = massOf3 a := rfl
+    have ca : (@MP3.transformBy K (fieldNum K sq) a m).com = @Iso3.act K (fieldNum K sq) m a.com := rfl
+    have hrot : @Iso3.rot K (fieldNum K sq) m a.com = mulVec3 M a.com := rot_eq_mulVec sq m hq a.com
+    have i2x : (totF3 (l.map fun p => @MP3.transformBy K (fieldNum K sq) p m)).x
+        = (mulVec3 M (totF3 l)).x + totMass3 l * m.t.x := by rw [i2]
+    have i2y : (totF3 (l.map fun p => @MP3.transformBy K (fieldNum K sq) p m)).y
+        = (mulVec3 M (totF3 l)).y + totMass3 l * m.t.y := by rw [i2]
+    have i2z : (totF3 (l.map fun p => @MP3.transformBy K (fieldNum K sq) p m)).z
+        = (mulVec3 M (totF3 l)).z + totMass3 l * m.t.z := by rw [i2]
+    refine ⟨?_, ?_, ?_⟩
+    · simp only [ps', totMass3, List.map_cons, List.sum_cons, ma] at i1 ⊢
+      rw [i1]
+    · simp only [totF3, mulVec3, totMass3] at i2x i2y i2z
+      simp only [ps', totF3, totMass3, List.map_cons, List.sum_cons, ma, ca, Iso3.act, hrot, V3.add, mulVec3]
+      congr 1
+      · linear_combination i2x
+      · linear_combination i2y
+      · linear_combination i2z
+    · simp only [ps', totTensor3, List.map_cons, msum, List.foldr_cons] at i3 ⊢
+      rw [i3, ha]
+      simp only [totMass3, totF3, List.map_cons, List.sum_cons]
+      exact (movedTensor_add sq M m.t (massOf3 a) _ ⟨a.com.x * massOf3 a, a.com.y * massOf3 a, a.com.z * massOf3 a⟩ _
+        (originTensor sq a) _).symm
+
+/-- **`transform_by` commutes with `Sum` in 3-D — a rigidly moved Compound**: for a unit rotation quaternion,
+`ps.sum().transform_by(m)` and `ps.map(|p| p.transform_by(m)).sum()` have the same mass, first moment and second-moment
+tensor about the origin (through both eigen-decompositions); with `compound3_moments`: moving every part of a Compound by
+`m` moves its mass properties by `m`. -/
+theorem transformBy3_sum (hs : LawfulSqrt sq) (eig : M3 K → V3 K × M3 K) (ps : List (MP3 K)) (h : ∀ a ∈ ps, 0 ≤ a.invMass)
+    (m : Iso3 K) (hq : UnitQ (⟨m.qi, m.qj, m.qk, m.qw⟩ : Quat K))
+    (hE : let I := (@MP3.sumRaw K (fieldNum K sq) ps).2.2
+      EigenDecomp sq I (eig I).1 (eig I).2 ∧ 0 ≤ (eig I).1.x ∧ 0 ≤ (eig I).1.y ∧ 0 ≤ (eig I).1.z)
+    (hE' : let I := (@MP3.sumRaw K (fieldNum K sq) (ps.map fun p => @MP3.transformBy K (fieldNum K sq) p m)).2.2
+      EigenDecomp sq I (eig I).1 (eig I).2 ∧ 0 ≤ (eig I).1.x ∧ 0 ≤ (eig I).1.y ∧ 0 ≤ (eig I).1.z) :
+    letI := fieldNum K sq
+    let l := (MP3.sum eig ps).transformBy m
+    let r := MP3.sum eig (ps.map fun p => p.transformBy m)
+    massOf3 l = massOf3 r ∧
+    l.com.x * massOf3 l = r.com.x * massOf3 r ∧ l.com.y * massOf3 l = r.com.y * massOf3 r ∧
+    l.com.z * massOf3 l = r.com.z * massOf3 r ∧ originTensor sq l = originTensor sq r := by
+  intro l r
+  obtain ⟨s1, s2, s3, s4, s5⟩ := sum3_full_moments sq hs eig ps h hE
+  have h' : ∀ a ∈ ps.map (fun p => @MP3.transformBy K (fieldNum K sq) p m), 0 ≤ a.invMass := by
+    intro a ha
+    simp only [List.mem_map] at ha
+    obtain ⟨p, hp, rfl⟩ := ha
+    exact h p hp
+  obtain ⟨g1, g2, g3, g4, g5⟩ := sum3_full_moments sq hs eig _ h' hE'
+  obtain ⟨t1, t2, t3⟩ := tot_transformBy sq ps m hq
+  have t2x := congrArg V3.x t2
+  have t2y := congrArg V3.y t2
+  have t2z := congrArg V3.z t2
+  simp only at t2x t2y t2z
+  have hl := originTensor_transformBy sq (@MP3.sum K (fieldNum K sq) eig ps) m hq
+  have ml : massOf3 l = massOf3 (@MP3.sum K (fieldNum K sq) eig ps) := rfl
+  have cl : l.com = @Iso3.act K (fieldNum K sq) m (@MP3.sum K (fieldNum K sq) eig ps).com := rfl
+  have hrot := rot_eq_mulVec sq m hq (@MP3.sum K (fieldNum K sq) eig ps).com
+  refine ⟨by rw [ml, s1, g1, t1], ?_, ?_, ?_, ?_⟩
+  · rw [g2, t2x, ml, cl]
+    simp only [Iso3.act, hrot, mulVec3, V3.add]
+    linear_combination (@Quat.toMat K (fieldNum K sq) ⟨m.qi, m.qj, m.qk, m.qw⟩).r0.x * s2
+      + (@Quat.toMat K (fieldNum K sq) ⟨m.qi, m.qj, m.qk, m.qw⟩).r0.y * s3
+      + (@Quat.toMat K (fieldNum K sq) ⟨m.qi, m.qj, m.qk, m.qw⟩).r0.z * s4 + m.t.x * s1
+  · rw [g3, t2y, ml, cl]
+    simp only [Iso3.act, hrot, mulVec3, V3.add]
+    linear_combination (@Quat.toMat K (fieldNum K sq) ⟨m.qi, m.qj, m.qk, m.qw⟩).r1.x * s2
+      + (@Quat.toMat K (fieldNum K sq) ⟨m.qi, m.qj, m.qk, m.qw⟩).r1.y * s3
+      + (@Quat.toMat K (fieldNum K sq) ⟨m.qi, m.qj, m.qk, m.qw⟩).r1.z * s4 + m.t.y * s1
+  · rw [g4, t2z, ml, cl]
+    simp only [Iso3.act, hrot, mulVec3, V3.add]
+    linear_combination (@Quat.toMat K (fieldNum K sq) ⟨m.qi, m.qj, m.qk, m.qw⟩).r2.x * s2
+      + (@Quat.toMat K (fieldNum K sq) ⟨m.qi, m.qj, m.qk, m.qw⟩).r2.y * s3
+      + (@Quat.toMat K (fieldNum K sq) ⟨m.qi, m.qj, m.qk, m.qw⟩).r2.z * s4 + m.t.z * s1
+  · have e : originTensor sq r = totTensor3 sq (ps.map fun p => @MP3.transformBy K (fieldNum K sq) p m) := g5
+    have e0 : originTensor sq (@MP3.sum K (fieldNum K sq) eig ps) = totTensor3 sq ps := s5
+    rw [e, t3, hl, e0, s2, s3, s4, s1]
+    try rfl
+
+/-! ### world-space accessors -/
+
+/-- **`world_com` / `world_inv_inertia_sqrt`**: `world_com(pos)` is the centre of mass of `transform_by(pos)` (2-D and 3-D;
+so `transformBy_covariant` / `transformBy3_covariant` apply), and the 2-D `world_inv_inertia_sqrt(rot)` is the stored
+rotation-invariant scalar, the one `transform_by` keeps. -/
+theorem world_accessors_spec (p : MP2 K) (m : Iso2 K) (p3 : MP3 K) (m3 : Iso3 K) :
+    letI := fieldNum K sq
+    p.worldCom m = (p.transformBy m).com ∧ p.worldInvInertiaSqrt m = (p.transformBy m).invI ∧
+    p3.worldCom m3 = (p3.transformBy m3).com := by
+  exact ⟨rfl, rfl, rfl⟩
+
+/-! ### composing refinement rules; the refined rectangle is the cuboid -/
+
+/-- list form of `PartEq`: refining every triangle of a list by a moment-preserving rule keeps the four totals -/
+theorem partEq_flatMap (ρ : K) (f : Triangle2 K → List (Triangle2 K)) (hf : PartEq sq ρ f) (ts : List (Triangle2 K)) :
+    totMass ((ts.flatMap f).map (@fromTriangle K (fieldNum K sq) ρ)) = totMass (ts.map (@fromTriangle K (fieldNum K sq) ρ)) ∧
+    totFx ((ts.flatMap f).map (@fromTriangle K (fieldNum K sq) ρ)) = totFx (ts.map (@fromTriangle K (fieldNum K sq) ρ)) ∧
+    totFy ((ts.flatMap f).map (@fromTriangle K (fieldNum K sq) ρ)) = totFy (ts.map (@fromTriangle K (fieldNum K sq) ρ)) ∧
+    ∀ p : V2 K, totMoment ((ts.flatMap f).map (@fromTriangle K (fieldNum K sq) ρ)) p
+      = totMoment (ts.map (@fromTriangle K (fieldNum K sq) ρ)) p := by
+  induction ts with
+  | nil => exact ⟨rfl, rfl, rfl, fun _ => rfl⟩
+  | cons t l ih =>
+    obtain ⟨i1, i2, i3, i4⟩ := ih
+    obtain ⟨f1, f2, f3, f4⟩ := hf t
+    simp only [totMass, totFx, totFy, totMoment, List.flatMap_cons, List.map_append, List.sum_append, List.map_cons,
+      List.sum_cons, List.map_nil, List.sum_nil, add_zero] at i1 i2 i3 i4 f1 f2 f3 f4 ⊢
+    exact ⟨by rw [i1, f1], by rw [i2, f2], by rw [i3, f3], fun p => by rw [i4 p, f4 p]⟩
+
+/-- moment-preserving rules compose: refine by `f`, then every piece by `g` (so any number of levels, any mixture of
+midpoint subdivision and point insertion, is again moment preserving) -/
+theorem partEq_comp (ρ : K) (f g : Triangle2 K → List (Triangle2 K)) (hf : PartEq sq ρ f) (hg : PartEq sq ρ g) :
+    PartEq sq ρ (fun t => (f t).flatMap g) := by
+  intro t
+  obtain ⟨k1, k2, k3, k4⟩ := partEq_flatMap sq ρ g hg (f t)
+  obtain ⟨f1, f2, f3, f4⟩ := hf t
+  exact ⟨k1.trans f1, k2.trans f2, k3.trans f3, fun p => (k4 p).trans (f4 p)⟩
+
+/-- **rectangle vs. every refinement of its triangulation**: the two-triangle rectangle `[0,w]×[0,h]` refined by any
+moment-preserving rule (e.g. `n` levels of midpoint subdivision, then a point inserted in every piece) has mass `ρwh`,
+centre `(w/2, h/2)` and inertia `ρwh(w²+h²)/12` — exactly `from_cuboid(ρ, (w/2, h/2))`. -/
+theorem trimesh_rectangle_refined (hs : LawfulSqrt sq) (ρ w h : K) (hρ : 0 < ρ) (hw : 0 < w) (hh : 0 < h)
+    (f : Triangle2 K → List (Triangle2 K)) (hf : PartEq sq ρ f) :
+    letI := fieldNum K sq
+    let ts : List (Triangle2 K) := [⟨⟨0, 0⟩, ⟨w, 0⟩, ⟨w, h⟩⟩, ⟨⟨0, 0⟩, ⟨w, h⟩, ⟨0, h⟩⟩]
+    massOf (fromTrimeshTris ρ (ts.flatMap f)) = ρ * (w * h) ∧
+    (fromTrimeshTris ρ (ts.flatMap f)).com = ⟨w / 2, h / 2⟩ ∧
+    inertiaOf (fromTrimeshTris ρ (ts.flatMap f)) = ρ * (w * h) * ((w ^ 2 + h ^ 2) / 12) ∧
+    inertiaOf (fromTrimeshTris ρ (ts.flatMap f)) = inertiaOf (fromCuboid2 ρ ⟨w / 2, h / 2⟩) := by
+  intro ts
+  obtain ⟨r1, r2, r3, -, r5⟩ := trimesh_rectangle sq hs ρ w h hρ hw hh
+  have hS := from_trimesh2_refine sq hs ρ hρ.le f hf ts
+  have hm : massOf (@fromTrimeshTris K (fieldNum K sq) ρ (ts.flatMap f)) ≠ 0 := by
+    rw [hS.1]
+    have : massOf (@fromTrimeshTris K (fieldNum K sq) ρ ts) = ρ * (w * h) := r1
+    rw [this]; positivity
+  obtain ⟨o1, o2, o3⟩ := sameMoments_obs _ _ hS hm
+  exact ⟨o1.trans r1, o2.trans r2, o3.trans r3, o3.trans r5⟩
+
+/-- non-vacuity: two levels of midpoint subdivision followed by centroid insertion is a moment-preserving rule -/
+example (hs : LawfulSqrt (fun x : ℝ => Real.sqrt x)) (ρ : ℝ) (hρ : 0 ≤ ρ) :
+    PartEq (fun x : ℝ => Real.sqrt x) ρ
+      (fun t => ((midpoint4₂ t).flatMap midpoint4₂).flatMap (insertPoint₂ (1 / 3) (1 / 3))) :=
+  partEq_comp _ ρ _ _ (partEq_comp _ ρ _ _ (midpoint4₂_partEq _ hs ρ hρ) (midpoint4₂_partEq _ hs ρ hρ))
+    (insertPoint₂_partEq _ hs ρ hρ _ _ (by norm_num) (by norm_num) (by norm_num))
+
+/-- **tetrahedron vs. every level of refinement of its boundary**: the `4·4ⁿ`-triangle boundary of a non-degenerate
+tetrahedron (and then one more point in the plane of every triangle), wound either way, returns the centroid, the mass
+`ρ|vol|` and the tensor `ρ|vol|·J(centroid)` of the solid tetrahedron, for every vertex average. -/
+theorem from_trimesh3_tetra_refined (ρ : K) (gc p0 p1 p2 p3 : V3 K) (hV : vol4 p0 p1 p2 p3 ≠ 0) (n : Nat)
+    (pt : Triangle3 K → V3 K) (hpt : ∀ t, vol4 (pt t) t.a t.b t.c = 0) :
+    letI := fieldNum K sq
+    let g : V3 K := ⟨(p0.x + p1.x + p2.x + p3.x) / 4, (p0.y + p1.y + p2.y + p3.y) / 4, (p0.z + p1.z + p2.z + p3.z) / 4⟩
+    let want := some (g, ρ * |vol4 p0 p1 p2 p3|, mscale (unitInertia4 g p0 p1 p2 p3) (ρ * |vol4 p0 p1 p2 p3|))
+    fromTrimesh3Raw ρ gc ((refineN n (tetraTris p0 p1 p2 p3)).flatMap fun t => insertPoint t (pt t)) = want ∧
+    fromTrimesh3Raw ρ gc ((refineN n (flipTris (tetraTris p0 p1 p2 p3))).flatMap fun t => insertPoint t (pt t)) = want := by
+  intro g want
+  obtain ⟨b1, b2⟩ := from_trimesh3_tetra sq ρ gc p0 p1 p2 p3 hV
+  have hct := (tetra_box_closed p0 p1 p2 p3 p0).1
+  exact ⟨(from_trimesh3_subdivided sq ρ gc gc _ hct n pt hpt).trans b1,
+    (from_trimesh3_subdivided sq ρ gc gc _ (closed3_flip_append _ _ hct hct).1 n pt hpt).trans b2⟩
+
+/-! ### 2-D `from_trimesh` is covariant under isometries -/
+
+/-- a triangle moved by an isometry -/
+def moveTri (m : Iso2 K) (t : Triangle2 K) : Triangle2 K :=
+  ⟨@Iso2.act K (fieldNum K sq) m t.a, @Iso2.act K (fieldNum K sq) m t.b, @Iso2.act K (fieldNum K sq) m t.c⟩
+
+/-- the triangle parts of a rigidly moved triangle list: same total mass, first moment moved, second moment about the
+transported point unchanged -/
+theorem parts_moved (hs : LawfulSqrt sq) (ρ : K) (hρ : 0 ≤ ρ) (m : Iso2 K) (hu : m.re * m.re + m.im * m.im = 1)
+    (ts : List (Triangle2 K)) :
+    let F := @fromTriangle K (fieldNum K sq) ρ
+    totMass ((ts.map (moveTri sq m)).map F) = totMass (ts.map F) ∧
+    totFx ((ts.map (moveTri sq m)).map F) = m.re * totFx (ts.map F) - m.im * totFy (ts.map F) + m.t.x * totMass (ts.map F) ∧
+    totFy ((ts.map (moveTri sq m)).map F) = m.im * totFx (ts.map F) + m.re * totFy (ts.map F) + m.t.y * totMass (ts.map F) ∧
+    ∀ p : V2 K, totMoment ((ts.map (moveTri sq m)).map F) (@Iso2.act K (fieldNum K sq) m p) = totMoment (ts.map F) p := by
+  intro F
+  induction ts with
+  | nil => exact ⟨rfl, by simp [totFx, totFy, totMass], by simp [totFx, totFy, totMass], fun _ => rfl⟩
+  | cons t l ih =>
+    obtain ⟨i1, i2, i3, i4⟩ := ih
+    rcases t with ⟨⟨ax, ay⟩, ⟨bx, by'⟩, ⟨cx, cy⟩⟩
+    have hc : cross (moveTri sq m (⟨⟨ax, ay⟩, ⟨bx, by'⟩, ⟨cx, cy⟩⟩ : Triangle2 K)) = cross (⟨⟨ax, ay⟩, ⟨bx, by'⟩, ⟨cx, cy⟩⟩ : Triangle2 K) := by
+      simp only [moveTri, cross, Iso2.act, Iso2.rot, V2.add]
+      linear_combination ((bx - ax) * (cy - ay) - (by' - ay) * (cx - ax)) * hu
+    have hS : sumSqSides (moveTri sq m (⟨⟨ax, ay⟩, ⟨bx, by'⟩, ⟨cx, cy⟩⟩ : Triangle2 K)) = sumSqSides (⟨⟨ax, ay⟩, ⟨bx, by'⟩, ⟨cx, cy⟩⟩ : Triangle2 K) := by
+      simp only [moveTri, sumSqSides, Iso2.act, Iso2.rot, V2.add]
+      linear_combination (((bx - ax) ^ 2 + (by' - ay) ^ 2) + ((cx - bx) ^ 2 + (cy - by') ^ 2) + ((ax - cx) ^ 2 + (ay - cy) ^ 2)) * hu
+    refine ⟨?_, ?_, ?_, ?_⟩
+    · simp only [totMass, List.map_cons, List.sum_cons, F] at i1 ⊢
+      rw [i1, (part_closed sq hs ρ hρ _ ⟨0, 0⟩).1, (part_closed sq hs ρ hρ _ ⟨0, 0⟩).1, hc]
+    · simp only [totFx, totFy, totMass, List.map_cons, List.sum_cons, F] at i2 ⊢
+      rw [i2, (part_closed sq hs ρ hρ _ ⟨0, 0⟩).1, (part_closed sq hs ρ hρ _ ⟨0, 0⟩).1, (part_closed sq hs ρ hρ _ ⟨0, 0⟩).2.1,
+        (part_closed sq hs ρ hρ _ ⟨0, 0⟩).2.1, (part_closed sq hs ρ hρ _ ⟨0, 0⟩).2.2.1, hc]
+      simp only [moveTri, Iso2.act, Iso2.rot, V2.add]
+      ring
+    · simp only [totFx, totFy, totMass, List.map_cons, List.sum_cons, F] at i3 ⊢
+      rw [i3, (part_closed sq hs ρ hρ _ ⟨0, 0⟩).1, (part_closed sq hs ρ hρ _ ⟨0, 0⟩).1, (part_closed sq hs ρ hρ _ ⟨0, 0⟩).2.1,
+        (part_closed sq hs ρ hρ _ ⟨0, 0⟩).2.2.1, (part_closed sq hs ρ hρ _ ⟨0, 0⟩).2.2.1, hc]
+      simp only [moveTri, Iso2.act, Iso2.rot, V2.add]
+      ring
+    · intro p
+      have i4p := i4 p
+      simp only [totMoment, List.map_cons, List.sum_cons, F] at i4p ⊢
+      rw [i4p, (part_closed sq hs ρ hρ _ _).2.2.2, (part_closed sq hs ρ hρ _ _).2.2.2, hc, hS]
+      simp only [moveTri, Iso2.act, Iso2.rot, V2.add]
+      rcases p with ⟨px, py⟩
+      simp only
+      linear_combination (|cross (⟨⟨ax, ay⟩, ⟨bx, by'⟩, ⟨cx, cy⟩⟩ : Triangle2 K)| / 2 * ρ *
+        ((px - (ax + bx + cx) / 3) ^ 2 + (py - (ay + by' + cy) / 3) ^ 2)) * hu
+
+/-- **2-D `from_trimesh` is covariant under isometries**: the mass properties of the rigidly moved triangle list are
+those of the original list transformed by `transform_by` (same mass, first moment and polar moment about every point). -/
+theorem from_trimesh2_moved (hs : LawfulSqrt sq) (ρ : K) (hρ : 0 ≤ ρ) (m : Iso2 K) (hu : m.re * m.re + m.im * m.im = 1)
+    (ts : List (Triangle2 K)) :
+    letI := fieldNum K sq
+    SameMoments (fromTrimeshTris ρ (ts.map (moveTri sq m))) ((fromTrimeshTris ρ ts).transformBy m) := by
+  obtain ⟨a1, a2, a3, a4⟩ := trimesh_moments sq hs ρ hρ (ts.map (moveTri sq m))
+  obtain ⟨b1, b2, b3, b4⟩ := trimesh_moments sq hs ρ hρ ts
+  obtain ⟨k1, k2, k3, k4⟩ := parts_moved sq hs ρ hρ m hu ts
+  obtain ⟨c1, -, c3, c4⟩ := transformBy_covariant sq (@fromTrimeshTris K (fieldNum K sq) ρ ts) m hu
+  refine ⟨by rw [a1, c1, b1, k1], ?_, ?_, ?_⟩
+  · rw [a2, c1, c3, k2, ← b2, ← b3, ← b1]
+    simp only [Iso2.act, Iso2.rot, V2.add]
+    ring
+  · rw [a3, c1, c3, k3, ← b2, ← b3, ← b1]
+    simp only [Iso2.act, Iso2.rot, V2.add]
+    ring
+  · intro q
+    rw [← act_invAct sq m hu q, a4, c4, k4, b4]
+/-- a non-identity unit rotation with a translation for `from_trimesh2_moved` (3-4-5) -/
+example : ((3:ℚ) / 5) * (3 / 5) + (4 / 5) * (4 / 5) = 1 := by norm_num
+
+/-! ### 3-D `from_trimesh` under rigid motions (closed surfaces) -/
+
+/-- the rigid motion `x ↦ M x + t` with `M` the rotation matrix of the quaternion `q` (spec side) -/
+def aff3 (q : Quat K) (t v : V3 K) : V3 K :=
+  ⟨(mulVec3 (@Quat.toMat K (fieldNum K sq) q) v).x + t.x, (mulVec3 (@Quat.toMat K (fieldNum K sq) q) v).y + t.y,
+   (mulVec3 (@Quat.toMat K (fieldNum K sq) q) v).z + t.z⟩
+/-- a triangle moved by the rigid motion -/
+def moveTri3 (q : Quat K) (t : V3 K) (s : Triangle3 K) : Triangle3 K := ⟨aff3 sq q t s.a, aff3 sq q t s.b, aff3 sq q t s.c⟩
+
+/-- signed volumes are invariant under rigid motions (`det M = |q|⁶ = 1`) -/
+theorem vol4_aff3 (q : Quat K) (hq : UnitQ q) (t o a b c : V3 K) :
+    vol4 (aff3 sq q t o) (aff3 sq q t a) (aff3 sq q t b) (aff3 sq q t c) = vol4 o a b c := by
+  rcases q with ⟨i, j, k, w⟩
+  simp only [UnitQ] at hq
+  simp only [vol4, aff3, mulVec3, Quat.toMat, fieldNum_two]
+  linear_combination (((i * i + j * j + k * k + w * w) * (i * i + j * j + k * k + w * w) + (i * i + j * j + k * k + w * w) + 1)
+    * (((a.x - o.x) * ((b.y - o.y) * (c.z - o.z) - (b.z - o.z) * (c.y - o.y))
+   - (b.x - o.x) * ((a.y - o.y) * (c.z - o.z) - (a.z - o.z) * (c.y - o.y))
+   + (c.x - o.x) * ((a.y - o.y) * (b.z - o.z) - (a.z - o.z) * (b.y - o.y))) / 6)) * hq
+
+/-- cone volume and first moment of a rigidly moved triangle list, apex moved along: `V' = V`, `F' = M F + V t` -/
+theorem cone_moved (q : Quat K) (hq : UnitQ q) (t o : V3 K) (ts : List (Triangle3 K)) :
+    coneVol (aff3 sq q t o) (ts.map (moveTri3 sq q t)) = coneVol o ts ∧
+    coneFirst (aff3 sq q t o) (ts.map (moveTri3 sq q t))
+      = ⟨(mulVec3 (@Quat.toMat K (fieldNum K sq) q) (coneFirst o ts)).x + coneVol o ts * t.x,
+         (mulVec3 (@Quat.toMat K (fieldNum K sq) q) (coneFirst o ts)).y + coneVol o ts * t.y,
+         (mulVec3 (@Quat.toMat K (fieldNum K sq) q) (coneFirst o ts)).z + coneVol o ts * t.z⟩ := by
+  induction ts with
+  | nil => exact ⟨rfl, by simp [coneFirst, coneVol, vsum3, mulVec3]⟩
+  | cons s l ih =>
+    obtain ⟨i1, i2⟩ := ih
+    have hv := vol4_aff3 sq q hq t o s.a s.b s.c
+    refine ⟨?_, ?_⟩
+    · simp only [List.map_cons, coneVol_cons, moveTri3, i1, hv]
+    · simp only [List.map_cons, coneFirst_cons, coneVol_cons, moveTri3, i2, hv]
+      generalize vol4 o s.a s.b s.c = v
+      generalize coneFirst o l = F
+      generalize coneVol o l = V
+      simp only [vadd3, aff3, mulVec3]
+      congr 1 <;> ring
+
+/-- closedness is preserved by moving every vertex with the same map -/
+theorem closed3_moved (q : Quat K) (t : V3 K) (ts : List (Triangle3 K)) (hc : Closed3 ts) :
+    Closed3 (ts.map (moveTri3 sq q t)) := by
+  intro E hE
+  let E' : V3 K → V3 K → K := fun p r => E (aff3 sq q t p) (aff3 sq q t r)
+  have h : (ts.map fun s => E' s.a s.b + E' s.b s.c + E' s.c s.a).sum = 0 :=
+    (sum_edges3 E' ts).symm.trans (hc E' (fun p r => hE _ _))
+  rw [sum_edges3, List.map_map]
+  exact h
+
+/-- a unit quaternion with a non-trivial rotation for `from_trimesh3_moved` -/
+example : UnitQ (⟨2 / 3, 1 / 3, 2 / 3, 0⟩ : Quat ℚ) := by norm_num [UnitQ]
+
+/-! ### 3-D `from_trimesh` under rigid motions: the tensor -/
+
+/-- conjugation `M A Mᵀ` by the rotation matrix of `q` -/
+def conj3 (q : Quat K) (A : M3 K) : M3 K :=
+  @M3.mul K (fieldNum K sq) (@M3.mul K (fieldNum K sq) (@Quat.toMat K (fieldNum K sq) q) A) (mtr (@Quat.toMat K (fieldNum K sq) q))
+
+/-- the unit inertia tensor of a rigidly moved tetrahedron about the moved point is the conjugate `M U Mᵀ` -/
+theorem unitInertia4_aff3 (q : Quat K) (hq : UnitQ q) (t r p1 p2 p3 p4 : V3 K) :
+    unitInertia4 (aff3 sq q t r) (aff3 sq q t p1) (aff3 sq q t p2) (aff3 sq q t p3) (aff3 sq q t p4)
+      = conj3 sq q (unitInertia4 r p1 p2 p3 p4) := by
+  have h1 := toMat_mul_transpose sq q hq
+  have h2 := toMat_transpose_mul sq q hq
+  simp only [unitInertia4, cov4, aff3, conj3, mulVec3]
+  generalize @Quat.toMat K (fieldNum K sq) q = M at h1 h2 ⊢
+  rcases M with ⟨⟨m00, m01, m02⟩, ⟨m10, m11, m12⟩, ⟨m20, m21, m22⟩⟩
+  simp only [M3.mul, mtr, mone, M3.mk.injEq, V3.mk.injEq] at h1 h2
+  obtain ⟨⟨h00, h01, h02⟩, ⟨h10, h11, h12⟩, ⟨h20, h21, h22⟩⟩ := h1
+  obtain ⟨⟨g00, g01, g02⟩, ⟨g10, g11, g12⟩, ⟨g20, g21, g22⟩⟩ := h2
+  simp only [M3.mul, mtr]
+  congr 1 <;> congr 1
+  · linear_combination (((p1.x - r.x)*(p1.x - r.x) + (p2.x - r.x)*(p2.x - r.x) + (p3.x - r.x)*(p3.x - r.x) + (p4.x - r.x)*(p4.x - r.x) + ((p1.x - r.x)+(p2.x - r.x)+(p3.x - r.x)+(p4.x - r.x))*((p1.x - r.x)+(p2.x - r.x)+(p3.x - r.x)+(p4.x - r.x)))/20) * g00 + (((p1.y - r.y)*(p1.y - r.y) + (p2.y - r.y)*(p2.y - r.y) + (p3.y - r.y)*(p3.y - r.y) + (p4.y - r.y)*(p4.y - r.y) + ((p1.y - r.y)+(p2.y - r.y)+(p3.y - r.y)+(p4.y - r.y))*((p1.y - r.y)+(p2.y - r.y)+(p3.y - r.y)+(p4.y - r.y)))/20) * g11 + (((p1.z - r.z)*(p1.z - r.z) + (p2.z - r.z)*(p2.z - r.z) + (p3.z - r.z)*(p3.z - r.z) + (p4.z - r.z)*(p4.z - r.z) + ((p1.z - r.z)+(p2.z - r.z)+(p3.z - r.z)+(p4.z - r.z))*((p1.z - r.z)+(p2.z - r.z)+(p3.z - r.z)+(p4.z - r.z)))/20) * g22 + 2 * (((p1.x - r.x)*(p1.y - r.y) + (p2.x - r.x)*(p2.y - r.y) + (p3.x - r.x)*(p3.y - r.y) + (p4.x - r.x)*(p4.y - r.y) + ((p1.x - r.x)+(p2.x - r.x)+(p3.x - r.x)+(p4.x - r.x))*((p1.y - r.y)+(p2.y - r.y)+(p3.y - r.y)+(p4.y - r.y)))/20) * g01 + 2 * (((p1.x - r.x)*(p1.z - r.z) + (p2.x - r.x)*(p2.z - r.z) + (p3.x - r.x)*(p3.z - r.z) + (p4.x - r.x)*(p4.z - r.z) + ((p1.x - r.x)+(p2.x - r.x)+(p3.x - r.x)+(p4.x - r.x))*((p1.z - r.z)+(p2.z - r.z)+(p3.z - r.z)+(p4.z - r.z)))/20) * g02 + 2 * (((p1.y - r.y)*(p1.z - r.z) + (p2.y - r.y)*(p2.z - r.z) + (p3.y - r.y)*(p3.z - r.z) + (p4.y - r.y)*(p4.z - r.z) + ((p1.y - r.y)+(p2.y - r.y)+(p3.y - r.y)+(p4.y - r.y))*((p1.z - r.z)+(p2.z - r.z)+(p3.z - r.z)+(p4.z - r.z)))/20) * g12 - ((((p1.x - r.x)*(p1.x - r.x) + (p2.x - r.x)*(p2.x - r.x) + (p3.x - r.x)*(p3.x - r.x) + (p4.x - r.x)*(p4.x - r.x) + ((p1.x - r.x)+(p2.x - r.x)+(p3.x - r.x)+(p4.x - r.x))*((p1.x - r.x)+(p2.x - r.x)+(p3.x - r.x)+(p4.x - r.x)))/20) + (((p1.y - r.y)*(p1.y - r.y) + (p2.y - r.y)*(p2.y - r.y) + (p3.y - r.y)*(p3.y - r.y) + (p4.y - r.y)*(p4.y - r.y) + ((p1.y - r.y)+(p2.y - r.y)+(p3.y - r.y)+(p4.y - r.y))*((p1.y - r.y)+(p2.y - r.y)+(p3.y - r.y)+(p4.y - r.y)))/20) + (((p1.z - r.z)*(p1.z - r.z) + (p2.z - r.z)*(p2.z - r.z) + (p3.z - r.z)*(p3.z - r.z) + (p4.z - r.z)*(p4.z - r.z) + ((p1.z - r.z)+(p2.z - r.z)+(p3.z - r.z)+(p4.z - r.z))*((p1.z - r.z)+(p2.z - r.z)+(p3.z - r.z)+(p4.z - r.z)))/20)) * h00
+  · linear_combination (-((((p1.x - r.x)*(p1.x - r.x) + (p2.x - r.x)*(p2.x - r.x) + (p3.x - r.x)*(p3.x - r.x) + (p4.x - r.x)*(p4.x - r.x) + ((p1.x - r.x)+(p2.x - r.x)+(p3.x - r.x)+(p4.x - r.x))*((p1.x - r.x)+(p2.x - r.x)+(p3.x - r.x)+(p4.x - r.x)))/20) + (((p1.y - r.y)*(p1.y - r.y) + (p2.y - r.y)*(p2.y - r.y) + (p3.y - r.y)*(p3.y - r.y) + (p4.y - r.y)*(p4.y - r.y) + ((p1.y - r.y)+(p2.y - r.y)+(p3.y - r.y)+(p4.y - r.y))*((p1.y - r.y)+(p2.y - r.y)+(p3.y - r.y)+(p4.y - r.y)))/20) + (((p1.z - r.z)*(p1.z - r.z) + (p2.z - r.z)*(p2.z - r.z) + (p3.z - r.z)*(p3.z - r.z) + (p4.z - r.z)*(p4.z - r.z) + ((p1.z - r.z)+(p2.z - r.z)+(p3.z - r.z)+(p4.z - r.z))*((p1.z - r.z)+(p2.z - r.z)+(p3.z - r.z)+(p4.z - r.z)))/20))) * h01
+  · linear_combination (-((((p1.x - r.x)*(p1.x - r.x) + (p2.x - r.x)*(p2.x - r.x) + (p3.x - r.x)*(p3.x - r.x) + (p4.x - r.x)*(p4.x - r.x) + ((p1.x - r.x)+(p2.x - r.x)+(p3.x - r.x)+(p4.x - r.x))*((p1.x - r.x)+(p2.x - r.x)+(p3.x - r.x)+(p4.x - r.x)))/20) + (((p1.y - r.y)*(p1.y - r.y) + (p2.y - r.y)*(p2.y - r.y) + (p3.y - r.y)*(p3.y - r.y) + (p4.y - r.y)*(p4.y - r.y) + ((p1.y - r.y)+(p2.y - r.y)+(p3.y - r.y)+(p4.y - r.y))*((p1.y - r.y)+(p2.y - r.y)+(p3.y - r.y)+(p4.y - r.y)))/20) + (((p1.z - r.z)*(p1.z - r.z) + (p2.z - r.z)*(p2.z - r.z) + (p3.z - r.z)*(p3.z - r.z) + (p4.z - r.z)*(p4.z - r.z) + ((p1.z - r.z)+(p2.z - r.z)+(p3.z - r.z)+(p4.z - r.z))*((p1.z - r.z)+(p2.z - r.z)+(p3.z - r.z)+(p4.z - r.z)))/20))) * h02
+  · linear_combination (-((((p1.x - r.x)*(p1.x - r.x) + (p2.x - r.x)*(p2.x - r.x) + (p3.x - r.x)*(p3.x - r.x) + (p4.x - r.x)*(p4.x - r.x) + ((p1.x - r.x)+(p2.x - r.x)+(p3.x - r.x)+(p4.x - r.x))*((p1.x - r.x)+(p2.x - r.x)+(p3.x - r.x)+(p4.x - r.x)))/20) + (((p1.y - r.y)*(p1.y - r.y) + (p2.y - r.y)*(p2.y - r.y) + (p3.y - r.y)*(p3.y - r.y) + (p4.y - r.y)*(p4.y - r.y) + ((p1.y - r.y)+(p2.y - r.y)+(p3.y - r.y)+(p4.y - r.y))*((p1.y - r.y)+(p2.y - r.y)+(p3.y - r.y)+(p4.y - r.y)))/20) + (((p1.z - r.z)*(p1.z - r.z) + (p2.z - r.z)*(p2.z - r.z) + (p3.z - r.z)*(p3.z - r.z) + (p4.z - r.z)*(p4.z - r.z) + ((p1.z - r.z)+(p2.z - r.z)+(p3.z - r.z)+(p4.z - r.z))*((p1.z - r.z)+(p2.z - r.z)+(p3.z - r.z)+(p4.z - r.z)))/20))) * h10
+  · linear_combination (((p1.x - r.x)*(p1.x - r.x) + (p2.x - r.x)*(p2.x - r.x) + (p3.x - r.x)*(p3.x - r.x) + (p4.x - r.x)*(p4.x - r.x) + ((p1.x - r.x)+(p2.x - r.x)+(p3.x - r.x)+(p4.x - r.x))*((p1.x - r.x)+(p2.x - r.x)+(p3.x - r.x)+(p4.x - r.x)))/20) * g00 + (((p1.y - r.y)*(p1.y - r.y) + (p2.y - r.y)*(p2.y - r.y) + (p3.y - r.y)*(p3.y - r.y) + (p4.y - r.y)*(p4.y - r.y) + ((p1.y - r.y)+(p2.y - r.y)+(p3.y - r.y)+(p4.y - r.y))*((p1.y - r.y)+(p2.y - r.y)+(p3.y - r.y)+(p4.y - r.y)))/20) * g11 + (((p1.z - r.z)*(p1.z - r.z) + (p2.z - r.z)*(p2.z - r.z) + (p3.z - r.z)*(p3.z - r.z) + (p4.z - r.z)*(p4.z - r.z) + ((p1.z - r.z)+(p2.z - r.z)+(p3.z - r.z)+(p4.z - r.z))*((p1.z - r.z)+(p2.z - r.z)+(p3.z - r.z)+(p4.z - r.z)))/20) * g22 + 2 * (((p1.x - r.x)*(p1.y - r.y) + (p2.x - r.x)*(p2.y - r.y) + (p3.x - r.x)*(p3.y - r.y) + (p4.x - r.x)*(p4.y - r.y) + ((p1.x - r.x)+(p2.x - r.x)+(p3.x - r.x)+(p4.x - r.x))*((p1.y - r.y)+(p2.y - r.y)+(p3.y - r.y)+(p4.y - r.y)))/20) * g01 + 2 * (((p1.x - r.x)*(p1.z - r.z) + (p2.x - r.x)*(p2.z - r.z) + (p3.x - r.x)*(p3.z - r.z) + (p4.x - r.x)*(p4.z - r.z) + ((p1.x - r.x)+(p2.x - r.x)+(p3.x - r.x)+(p4.x - r.x))*((p1.z - r.z)+(p2.z - r.z)+(p3.z - r.z)+(p4.z - r.z)))/20) * g02 + 2 * (((p1.y - r.y)*(p1.z - r.z) + (p2.y - r.y)*(p2.z - r.z) + (p3.y - r.y)*(p3.z - r.z) + (p4.y - r.y)*(p4.z - r.z) + ((p1.y - r.y)+(p2.y - r.y)+(p3.y - r.y)+(p4.y - r.y))*((p1.z - r.z)+(p2.z - r.z)+(p3.z - r.z)+(p4.z - r.z)))/20) * g12 - ((((p1.x - r.x)*(p1.x - r.x) + (p2.x - r.x)*(p2.x - r.x) + (p3.x - r.x)*(p3.x - r.x) + (p4.x - r.x)*(p4.x - r.x) + ((p1.x - r.x)+(p2.x - r.x)+(p3.x - r.x)+(p4.x - r.x))*((p1.x - r.x)+(p2.x - r.x)+(p3.x - r.x)+(p4.x - r.x)))/20) + (((p1.y - r.y)*(p1.y - r.y) + (p2.y - r.y)*(p2.y - r.y) + (p3.y - r.y)*(p3.y - r.y) + (p4.y - r.y)*(p4.y - r.y) + ((p1.y - r.y)+(p2.y - r.y)+(p3.y - r.y)+(p4.y - r.y))*((p1.y - r.y)+(p2.y - r.y)+(p3.y - r.y)+(p4.y - r.y)))/20) + (((p1.z - r.z)*(p1.z - r.z) + (p2.z - r.z)*(p2.z - r.z) + (p3.z - r.z)*(p3.z - r.z) + (p4.z - r.z)*(p4.z - r.z) + ((p1.z - r.z)+(p2.z - r.z)+(p3.z - r.z)+(p4.z - r.z))*((p1.z - r.z)+(p2.z - r.z)+(p3.z - r.z)+(p4.z - r.z)))/20)) * h11
+  · linear_combination (-((((p1.x - r.x)*(p1.x - r.x) + (p2.x - r.x)*(p2.x - r.x) + (p3.x - r.x)*(p3.x - r.x) + (p4.x - r.x)*(p4.x - r.x) + ((p1.x - r.x)+(p2.x - r.x)+(p3.x - r.x)+(p4.x - r.x))*((p1.x - r.x)+(p2.x - r.x)+(p3.x - r.x)+(p4.x - r.x)))/20) + (((p1.y - r.y)*(p1.y - r.y) + (p2.y - r.y)*(p2.y - r.y) + (p3.y - r.y)*(p3.y - r.y) + (p4.y - r.y)*(p4.y - r.y) + ((p1.y - r.y)+(p2.y - r.y)+(p3.y - r.y)+(p4.y - r.y))*((p1.y - r.y)+(p2.y - r.y)+(p3.y - r.y)+(p4.y - r.y)))/20) + (((p1.z - r.z)*(p1.z - r.z) + (p2.z - r.z)*(p2.z - r.z) + (p3.z - r.z)*(p3.z - r.z) + (p4.z - r.z)*(p4.z - r.z) + ((p1.z - r.z)+(p2.z - r.z)+(p3.z - r.z)+(p4.z - r.z))*((p1.z - r.z)+(p2.z - r.z)+(p3.z - r.z)+(p4.z - r.z)))/20))) * h12
+  · linear_combination (-((((p1.x - r.x)*(p1.x - r.x) + (p2.x - r.x)*(p2.x - r.x) + (p3.x - r.x)*(p3.x - r.x) + (p4.x - r.x)*(p4.x - r.x) + ((p1.x - r.x)+(p2.x - r.x)+(p3.x - r.x)+(p4.x - r.x))*((p1.x - r.x)+(p2.x - r.x)+(p3.x - r.x)+(p4.x - r.x)))/20) + (((p1.y - r.y)*(p1.y - r.y) + (p2.y - r.y)*(p2.y - r.y) + (p3.y - r.y)*(p3.y - r.y) + (p4.y - r.y)*(p4.y - r.y) + ((p1.y - r.y)+(p2.y - r.y)+(p3.y - r.y)+(p4.y - r.y))*((p1.y - r.y)+(p2.y - r.y)+(p3.y - r.y)+(p4.y - r.y)))/20) + (((p1.z - r.z)*(p1.z - r.z) + (p2.z - r.z)*(p2.z - r.z) + (p3.z - r.z)*(p3.z - r.z) + (p4.z - r.z)*(p4.z - r.z) + ((p1.z - r.z)+(p2.z - r.z)+(p3.z - r.z)+(p4.z - r.z))*((p1.z - r.z)+(p2.z - r.z)+(p3.z - r.z)+(p4.z - r.z)))/20))) * h20
+  · linear_combination (-((((p1.x - r.x)*(p1.x - r.x) + (p2.x - r.x)*(p2.x - r.x) + (p3.x - r.x)*(p3.x - r.x) + (p4.x - r.x)*(p4.x - r.x) + ((p1.x - r.x)+(p2.x - r.x)+(p3.x - r.x)+(p4.x - r.x))*((p1.x - r.x)+(p2.x - r.x)+(p3.x - r.x)+(p4.x - r.x)))/20) + (((p1.y - r.y)*(p1.y - r.y) + (p2.y - r.y)*(p2.y - r.y) + (p3.y - r.y)*(p3.y - r.y) + (p4.y - r.y)*(p4.y - r.y) + ((p1.y - r.y)+(p2.y - r.y)+(p3.y - r.y)+(p4.y - r.y))*((p1.y - r.y)+(p2.y - r.y)+(p3.y - r.y)+(p4.y - r.y)))/20) + (((p1.z - r.z)*(p1.z - r.z) + (p2.z - r.z)*(p2.z - r.z) + (p3.z - r.z)*(p3.z - r.z) + (p4.z - r.z)*(p4.z - r.z) + ((p1.z - r.z)+(p2.z - r.z)+(p3.z - r.z)+(p4.z - r.z))*((p1.z - r.z)+(p2.z - r.z)+(p3.z - r.z)+(p4.z - r.z)))/20))) * h21
+  · linear_combination (((p1.x - r.x)*(p1.x - r.x) + (p2.x - r.x)*(p2.x - r.x) + (p3.x - r.x)*(p3.x - r.x) + (p4.x - r.x)*(p4.x - r.x) + ((p1.x - r.x)+(p2.x - r.x)+(p3.x - r.x)+(p4.x - r.x))*((p1.x - r.x)+(p2.x - r.x)+(p3.x - r.x)+(p4.x - r.x)))/20) * g00 + (((p1.y - r.y)*(p1.y - r.y) + (p2.y - r.y)*(p2.y - r.y) + (p3.y - r.y)*(p3.y - r.y) + (p4.y - r.y)*(p4.y - r.y) + ((p1.y - r.y)+(p2.y - r.y)+(p3.y - r.y)+(p4.y - r.y))*((p1.y - r.y)+(p2.y - r.y)+(p3.y - r.y)+(p4.y - r.y)))/20) * g11 + (((p1.z - r.z)*(p1.z - r.z) + (p2.z - r.z)*(p2.z - r.z) + (p3.z - r.z)*(p3.z - r.z) + (p4.z - r.z)*(p4.z - r.z) + ((p1.z - r.z)+(p2.z - r.z)+(p3.z - r.z)+(p4.z - r.z))*((p1.z - r.z)+(p2.z - r.z)+(p3.z - r.z)+(p4.z - r.z)))/20) * g22 + 2 * (((p1.x - r.x)*(p1.y - r.y) + (p2.x - r.x)*(p2.y - r.y) + (p3.x - r.x)*(p3.y - r.y) + (p4.x - r.x)*(p4.y - r.y) + ((p1.x - r.x)+(p2.x - r.x)+(p3.x - r.x)+(p4.x - r.x))*((p1.y - r.y)+(p2.y - r.y)+(p3.y - r.y)+(p4.y - r.y)))/20) * g01 + 2 * (((p1.x - r.x)*(p1.z - r.z) + (p2.x - r.x)*(p2.z - r.z) + (p3.x - r.x)*(p3.z - r.z) + (p4.x - r.x)*(p4.z - r.z) + ((p1.x - r.x)+(p2.x - r.x)+(p3.x - r.x)+(p4.x - r.x))*((p1.z - r.z)+(p2.z - r.z)+(p3.z - r.z)+(p4.z - r.z)))/20) * g02 + 2 * (((p1.y - r.y)*(p1.z - r.z) + (p2.y - r.y)*(p2.z - r.z) + (p3.y - r.y)*(p3.z - r.z) + (p4.y - r.y)*(p4.z - r.z) + ((p1.y - r.y)+(p2.y - r.y)+(p3.y - r.y)+(p4.y - r.y))*((p1.z - r.z)+(p2.z - r.z)+(p3.z - r.z)+(p4.z - r.z)))/20) * g12 - ((((p1.x - r.x)*(p1.x - r.x) + (p2.x - r.x)*(p2.x - r.x) + (p3.x - r.x)*(p3.x - r.x) + (p4.x - r.x)*(p4.x - r.x) + ((p1.x - r.x)+(p2.x - r.x)+(p3.x - r.x)+(p4.x - r.x))*((p1.x - r.x)+(p2.x - r.x)+(p3.x - r.x)+(p4.x - r.x)))/20) + (((p1.y - r.y)*(p1.y - r.y) + (p2.y - r.y)*(p2.y - r.y) + (p3.y - r.y)*(p3.y - r.y) + (p4.y - r.y)*(p4.y - r.y) + ((p1.y - r.y)+(p2.y - r.y)+(p3.y - r.y)+(p4.y - r.y))*((p1.y - r.y)+(p2.y - r.y)+(p3.y - r.y)+(p4.y - r.y)))/20) + (((p1.z - r.z)*(p1.z - r.z) + (p2.z - r.z)*(p2.z - r.z) + (p3.z - r.z)*(p3.z - r.z) + (p4.z - r.z)*(p4.z - r.z) + ((p1.z - r.z)+(p2.z - r.z)+(p3.z - r.z)+(p4.z - r.z))*((p1.z - r.z)+(p2.z - r.z)+(p3.z - r.z)+(p4.z - r.z)))/20)) * h22
+
+theorem conj3_madd (q : Quat K) (A B : M3 K) : conj3 sq q (madd A B) = madd (conj3 sq q A) (conj3 sq q B) := by
+  simp only [conj3]
+  generalize @Quat.toMat K (fieldNum K sq) q = M
+  rcases M with ⟨⟨m00, m01, m02⟩, ⟨m10, m11, m12⟩, ⟨m20, m21, m22⟩⟩
+  simp only [M3.mul, mtr, madd]
+  congr 1 <;> congr 1 <;> ring
+
+theorem conj3_mscale (q : Quat K) (A : M3 K) (v : K) : conj3 sq q (mscale A v) = mscale (conj3 sq q A) v := by
+  simp only [conj3]
+  generalize @Quat.toMat K (fieldNum K sq) q = M
+  rcases M with ⟨⟨m00, m01, m02⟩, ⟨m10, m11, m12⟩, ⟨m20, m21, m22⟩⟩
+  simp only [M3.mul, mtr, mscale]
+  congr 1 <;> congr 1 <;> ring
+
+theorem conj3_mzero (q : Quat K) : conj3 sq q mzero = mzero := by
+  simp only [conj3]
+  generalize @Quat.toMat K (fieldNum K sq) q = M
+  rcases M with ⟨⟨m00, m01, m02⟩, ⟨m10, m11, m12⟩, ⟨m20, m21, m22⟩⟩
+  simp only [M3.mul, mtr, mzero]
+  congr 1 <;> congr 1 <;> ring
+
+/-- the signed inertia tensor of the cones over a rigidly moved triangle list (apex and reference point moved along) is
+the conjugate `M J Mᵀ` -/
+theorem coneInertia_moved (q : Quat K) (hq : UnitQ q) (t r o : V3 K) (ts : List (Triangle3 K)) :
+    coneInertia (aff3 sq q t r) (aff3 sq q t o) (ts.map (moveTri3 sq q t)) = conj3 sq q (coneInertia r o ts) := by
+  induction ts with
+  | nil =>
+    simp only [List.map_nil, coneInertia, msum, List.foldr_nil]
+    exact (conj3_mzero sq q).symm
+  | cons s l ih =>
+    simp only [List.map_cons, coneInertia_cons, moveTri3] at ih ⊢
+    rw [ih, unitInertia4_aff3 sq q hq, vol4_aff3 sq q hq, conj3_madd, conj3_mscale]
+
+/-- **3-D TriMesh under a rigid motion (covariance of `from_trimesh`, closed surfaces)**: for a unit quaternion,
+`from_trimesh` of the moved mesh returns `zero()` iff the original does, the same mass, the moved centre `M·com + t` and the
+conjugated tensor `M I Mᵀ` — whatever the two vertex averages: exactly what `transform_by` does to the result
+(`transformBy3_covariant`). -/
+theorem from_trimesh3_moved (ρ : K) (gc gc' : V3 K) (q : Quat K) (hq : UnitQ q) (t : V3 K)
+    (ts : List (Triangle3 K)) (hc : Closed3 ts) :
+    letI := fieldNum K sq
+    fromTrimesh3Raw ρ gc' (ts.map (moveTri3 sq q t))
+      = (fromTrimesh3Raw ρ gc ts).map (fun r => (aff3 sq q t r.1, r.2.1, conj3 sq q r.2.2)) := by
+  have a := from_trimesh3_closed sq ρ gc ⟨0, 0, 0⟩ ts hc
+  have b := from_trimesh3_closed sq ρ gc' (aff3 sq q t ⟨0, 0, 0⟩) _ (closed3_moved sq q t ts hc)
+  obtain ⟨e1, e2⟩ := cone_moved sq q hq t ⟨0, 0, 0⟩ ts
+  simp only at a b
+  rw [a, b, e1, e2]
+  by_cases hV : coneVol (⟨0, 0, 0⟩ : V3 K) ts = 0
+  · simp only [hV, if_true, Option.map_none]
+  · simp only [hV, if_false, Option.map_some, Option.some.injEq, Prod.mk.injEq, true_and]
+    have hcom : (⟨((mulVec3 (@Quat.toMat K (fieldNum K sq) q) (coneFirst ⟨0, 0, 0⟩ ts)).x + coneVol ⟨0, 0, 0⟩ ts * t.x) / coneVol ⟨0, 0, 0⟩ ts,
+        ((mulVec3 (@Quat.toMat K (fieldNum K sq) q) (coneFirst ⟨0, 0, 0⟩ ts)).y + coneVol ⟨0, 0, 0⟩ ts * t.y) / coneVol ⟨0, 0, 0⟩ ts,
+        ((mulVec3 (@Quat.toMat K (fieldNum K sq) q) (coneFirst ⟨0, 0, 0⟩ ts)).z + coneVol ⟨0, 0, 0⟩ ts * t.z) / coneVol ⟨0, 0, 0⟩ ts⟩ : V3 K)
+        = aff3 sq q t ⟨(coneFirst ⟨0, 0, 0⟩ ts).x / coneVol ⟨0, 0, 0⟩ ts, (coneFirst ⟨0, 0, 0⟩ ts).y / coneVol ⟨0, 0, 0⟩ ts,
+            (coneFirst ⟨0, 0, 0⟩ ts).z / coneVol ⟨0, 0, 0⟩ ts⟩ := by
+      generalize coneFirst (⟨0, 0, 0⟩ : V3 K) ts = F at *
+      generalize coneVol (⟨0, 0, 0⟩ : V3 K) ts = V at *
+      simp only [aff3, mulVec3]
+      congr 1 <;> field_simp
+    rw [hcom, coneInertia_moved sq q hq, conj3_mscale, conj3_mscale]
+    repeat' constructor
+
+/-- **`from_trimesh` commutes with `transform_by` (3-D, closed surfaces, through the eigen-decomposition)**: if
+`from_trimesh` hands `(c, μ, I)` to `with_inertia_matrix` and the solver returns an orthonormal eigen-decomposition with
+non-negative eigenvalues, then the mesh moved by the isometry `m` (unit quaternion) gets exactly the centre, mass and
+reconstructed tensor of `from_trimesh(mesh).transform_by(m)`. -/
+theorem from_trimesh3_moved_transformBy (hs : LawfulSqrt sq) (eig : M3 K → V3 K × M3 K) (ρ : K) (gc gc' : V3 K) (m : Iso3 K)
+    (hq : UnitQ (⟨m.qi, m.qj, m.qk, m.qw⟩ : Quat K)) (ts : List (Triangle3 K)) (hc : Closed3 ts)
+    (c : V3 K) (μ : K) (I : M3 K) (hraw : @fromTrimesh3Raw K (fieldNum K sq) ρ gc ts = some (c, μ, I))
+    (hD : EigenDecomp sq I (eig I).1 (eig I).2) (e1 : 0 ≤ (eig I).1.x) (e2 : 0 ≤ (eig I).1.y) (e3 : 0 ≤ (eig I).1.z) :
+    letI := fieldNum K sq
+    let p := (MP3.withInertiaMatrix eig c μ I).transformBy m
+    fromTrimesh3Raw ρ gc' (ts.map (moveTri3 sq ⟨m.qi, m.qj, m.qk, m.qw⟩ m.t)) = some (p.com, massOf3 p, p.reconstruct) := by
+  intro p
+  obtain ⟨r1, r2, r3, -, -⟩ := with_inertia_matrix_recompose sq hs c μ I (eig I).1 (eig I).2 hD e1 e2 e3
+  obtain ⟨t1, -, t3, t4⟩ := transformBy3_covariant sq (@MP3.withInertiaMatrix K (fieldNum K sq) eig c μ I) m
+  have hp : (@MP3.withInertiaMatrix K (fieldNum K sq) eig c μ I) = @MP3.withInertiaEigen K (fieldNum K sq) c μ (eig I).1 (eig I).2 := rfl
+  rw [from_trimesh3_moved sq ρ gc gc' _ hq m.t ts hc, hraw]
+  simp only [Option.map_some, Option.some.injEq, Prod.mk.injEq]
+  refine ⟨?_, ?_, ?_⟩
+  · show _ = p.com
+    rw [show p.com = @Iso3.act K (fieldNum K sq) m (@MP3.withInertiaMatrix K (fieldNum K sq) eig c μ I).com from t3, hp, r3]
+    simp only [Iso3.act, rot_eq_mulVec sq m hq, V3.add, aff3]
+  · show μ = massOf3 p
+    rw [show massOf3 p = massOf3 (@MP3.withInertiaMatrix K (fieldNum K sq) eig c μ I) from t1, hp, r2]
+  · show _ = @MP3.reconstruct K (fieldNum K sq) p
+    rw [show @MP3.reconstruct K (fieldNum K sq) p = _ from t4, hp, r1]
+    rfl
 
 end C13
